@@ -119,6 +119,17 @@ fn maps() -> Vec<Object> {
             ms.push(m);
         }
     }
+    // a name bound to nil is bound: it resolves (to nil), it is a root, it shadows
+    for (a, b) in [(Some(Value::Nil), None), (Some(Value::Nil), Some(Value::scalar(2i64))), (None, Some(Value::Nil))] {
+        let mut m = Object::new();
+        if let Some(v) = a {
+            m.insert("a".into(), v);
+        }
+        if let Some(v) = b {
+            m.insert("b".into(), v);
+        }
+        ms.push(m);
+    }
     ms
 }
 
@@ -241,15 +252,15 @@ pub fn run(ctx: &mut Ctx) {
         let mut cur = Vec::new();
         for _ in 0..len {
             let op = match rng.below(10) {
-                0..=2 => ops[rng.below(18)].clone(),
+                0..=2 => ops[rng.below(2 * maps().len())].clone(),
                 3 => Op::Global,
                 4 | 5 => Op::Pop,
-                _ => ops[20 + rng.below(ops.len() - 20)].clone(),
+                _ => { let first_set = 2 * maps().len() + 2; ops[first_set + rng.below(ops.len() - first_set)].clone() }
             };
             cur.push(op);
         }
         if valid(&cur) {
-            let b = if rng.chance(1, 2) { base.clone() } else { maps()[rng.below(9)].clone() };
+            let b = if rng.chance(1, 2) { base.clone() } else { let ms = maps(); ms[rng.below(ms.len())].clone() };
             run_case(ctx, &format!("rand{}", len), &b, &cur);
             made += 1;
         }
